@@ -84,27 +84,34 @@ class Monitor(object):
         if abs(v * 100 - n) > 1e-6:
             ctx.count('unjudged.off-grid-mark')
             return
-        if g not in ('M', 'F') and (g, e) not in UNKNOWN:
-            ctx.count('unjudged.gender-spelling')
+        if not isinstance(g, str) or not isinstance(e, str):
+            ctx.count('unjudged.hostile-argument-types')
             return
-        if age is not None and (not isinstance(age, int) or age < 0):
+        if age is not None and (not isinstance(age, int) or isinstance(age, bool) or age < 0):
             ctx.count('unjudged.age-type')
             return
         case = {'g': g, 'e': e, 'n': n, 'v': v, 'vtype': type(v).__name__, 'age': age, 'esaa': esaa}
-        if isinstance(e, str) and e != e.upper() and (g, e.upper()) in self.live and (g, e) not in self.live:
-            # a re-cased spelling of a scored event: the library folds the case when it looks the coefficients up.  Whether
-            # it answers at all is its own business (None is the "no score" answer), but a score must be the event's score
+        G, E = g.strip().upper(), e.strip().upper()
+        if (g, e) != (G, E) and (G, E) in self.live and (g, e) not in self.live:
+            # another spelling (letter case, surrounding blanks) of a scored pair: the library folds the case when it looks
+            # the coefficients up.  Whether it answers at all is its own business (None is the "no score" answer), but a
+            # score, if given, must be that event's score - never another formula applied to the same coefficients
             if out.ok and out.value is None:
-                ctx.count('unspecified.recased-event-not-scored')
+                ctx.count('unspecified.respelled-pair-not-scored')
                 return
-            exp = O.exact_score(core.REPO, self.live, g, e.upper(), n, age, esaa)
+            exp = O.exact_score(core.REPO, self.live, G, E, n, age, esaa)
             if exp[0] == 'points':
                 ctx.count('judged')
                 if not out.ok or type(out.value) is not int or out.value != exp[1]:
-                    ctx.violation('points:recased-event-code-scored-differently', case, exp[1], repr(out))
+                    only_case = (g == G and e.upper() == E)
+                    ctx.violation('points:recased-event-code-scored-differently' if only_case else
+                                  'points:respelled-pair-scored-differently', case, exp[1], repr(out))
                 elif exp[1] > 0:
                     ctx.nt((g, e, n, age, esaa))
-                    ctx.count('judged.recased-event')
+                    ctx.count('judged.recased-event' if e.strip() == e and g.strip() == g else 'judged.blank-decorated-pair')
+            return
+        if g not in ('M', 'F') and (g, e) not in UNKNOWN:
+            ctx.count('unjudged.gender-spelling')
             return
         exp = O.exact_score(core.REPO, self.live, g, e, n, age, esaa)
         if exp[0] == 'unspecified':
@@ -183,6 +190,27 @@ def drive(mon, g, e, n, age=None, esaa=False, reps=True):
         attach.call(score, g, e, f, **kw)
 
 
+def hostile(mon, rnd, g, e):
+    """Calls a careless caller makes - wrong argument types, most of them refused.  Nothing is judged on them; what is judged
+    is every later well-formed call: a refused call must not leave anything behind."""
+    score, perf = mon.score, mon.mod.performance
+    bad_e = [int(e) if e.isdigit() else 100, None, 1.5, [e], e.encode(), (e,), True]
+    bad_v = ['abc', None, [1.0], '', float('nan'), complex(1, 1)]
+    for _ in range(3):
+        k = rnd.randrange(5)
+        if k == 0:
+            attach.call(score, g, rnd.choice(bad_e), 10.0)
+        elif k == 1:
+            attach.call(score, g, e, rnd.choice(bad_v))
+        elif k == 2:
+            attach.call(score, rnd.choice([None, 1, b'M', ['M']]), e, 10.0)
+        elif k == 3:
+            attach.call(perf, g, rnd.choice(bad_e), 800)
+        else:
+            attach.call(score, g, e, 10.0, age=rnd.choice(['40', 'V40', [40], 1e400]))
+        mon.ctx.count('eval.hostile-call')
+
+
 def run_shard(ctx, spec):
     core.import_athlib()
     mon = Monitor(ctx)
@@ -192,13 +220,26 @@ def run_shard(ctx, spec):
     tier = ctx.tier
     for (g, e) in rows:
         marks, top = marks_for_row(mon, g, e, tier, rnd)
-        for n in marks:
+        for j, n in enumerate(marks):
             drive(mon, g, e, n, reps=(tier == 'quick' or n % 7 == 0))
+            if j % 401 == 200:
+                hostile(mon, rnd, g, e)
+        sub = list(marks)[:: max(1, len(marks) // 150)]
         for sp in (e.lower(), e.capitalize()):
             if sp != e:
-                for n in list(marks)[:: max(1, len(marks) // 150)]:
+                for n in sub:
                     drive(mon, g, sp, n, reps=False)
                     drive(mon, g, sp, n, age=50, reps=False)
+        # other spellings of the pair: lower-case gender, blanks around the code (a '$' in a pattern and str.strip()
+        # do not agree on what trailing white space is)
+        sub2 = sub[::3]
+        for gs, es in [(g.lower(), e), (g.lower(), e.lower()), (g, e + ' '), (g, e + '\t'), (g, e + '\n'), (g, e + '\r'),
+                       (g, e + '\u00a0'), (g, ' ' + e), (g, e.lower() + ' '), (g + ' ', e), (g.lower(), e + '\n')]:
+            for n in sub2:
+                drive(mon, gs, es, n, reps=False)
+                drive(mon, gs, es, n, age=50, reps=False)
+            hostile(mon, rnd, g, e)
+            drive(mon, g, e, rnd.choice(sub), reps=False)
         if (g, e) == ('M', '800'):
             # the ESAA option must not leak into later plain calls (and vice versa): interleave them
             for n in marks:
